@@ -89,6 +89,8 @@ func execAlgCase(c algCase, _ core.Source) core.Result {
 		return execAlg(c, seInt)
 	case "string":
 		return execAlg(c, seString)
+	case "float":
+		return execAlg(c, seFloat)
 	case "ints":
 		return execAlg(c, seInts)
 	case "any":
@@ -329,7 +331,7 @@ var algOps = []string{"And", "Or", "Sans", "Xor"}
 
 func genAlgExhaustive(universe int) func(core.Source) algCase {
 	return func(s core.Source) algCase {
-		c := algCase{Elem: core.Pick(s, []string{"int", "string"}, "elem"), Collator: "default"}
+		c := algCase{Elem: core.Pick(s, []string{"int", "string", "float"}, "elem"), Collator: "default"}
 		c.Op = core.Pick(s, algOps, "op")
 		ma := s.Choose(1<<universe, "A")
 		mb := s.Choose((1<<universe)+1, "B") // the extra value = alias (A, A)
@@ -346,7 +348,7 @@ func genAlgExhaustive(universe int) func(core.Source) algCase {
 }
 
 func genAlgRandom(s core.Source) algCase {
-	c := algCase{Elem: core.Pick(s, []string{"int", "string", "ints", "any", "set"}, "elem")}
+	c := algCase{Elem: core.Pick(s, []string{"int", "string", "float", "ints", "any", "set"}, "elem")}
 	c.Collator = core.Pick(s, []string{"default", "reversed", "coarse"}, "collator")
 	if (c.Elem == "any" || c.Elem == "set") && c.Collator == "coarse" {
 		c.Collator = "reversed"
